@@ -172,12 +172,14 @@ struct Case
 
 static std::string describeCase(const Case &c, long idx)
 {
-  std::string s = "#" + std::to_string(idx) + " script=" + c.script + " launch=" + (c.launch == AsyncLoop::THREAD ? "THREAD" : "TASK") +
+  std::string s = "#" + std::to_string(idx) + " script=" + (c.mode == 3 ? "(SWFTg)x" + std::to_string(c.script.size() / 5) : c.script) + " launch=" + (c.launch == AsyncLoop::THREAD ? "THREAD" : "TASK") +
                   " bodyUs=" + std::to_string(c.bodyUs);
   if (c.mode == 0)
     s += std::string(" directed: pause at ") + kPoints[c.P] + " (arrival " + std::to_string(c.k) + ") until " + kPoints[c.Q];
   else if (c.mode == 1)
     s += " random-delays permille=" + std::to_string(c.delayPermille);
+  else if (c.mode == 3)
+    s += " raw-stress (no hook installed: nothing between the loop thread's flag store and flag load)";
   else
     s += " stress";
   return s;
@@ -236,12 +238,23 @@ static RunResult runScript(const Case &c, long idx, bool judge)
       double t0 = vh::now();
       while ((vh::now() - t0) * 1e6 < bodyUs) {
       }
-    }
-    std::this_thread::yield();
+      std::this_thread::yield();
+    } else if (bodyUs < 0) {  // raw stress: |bodyUs| nanoseconds, no yield
+      double t0 = vh::now();
+      while ((vh::now() - t0) * 1e9 < -bodyUs) {
+      }
+    } else
+      std::this_thread::yield();
     atPoint(P_BODY_EXIT, 0, script);
   };
 
   std::string ctx = describeCase(c, idx);
+  // raw stress: the library runs without any hook callback, so that no fence of the harness sits
+  // between the loop thread's store of insideLoopBody and its load of the running flag
+  rkcommon::verif::HookFcn savedHook = rkcommon::verif::hook().load();
+  if (c.mode == 3)
+    rkcommon::verif::hook().store(nullptr);
+  vh::Rng fr(vh::seed(), 555 + (uint64_t)idx);
   AsyncLoop *al   = new AsyncLoop(body, (AsyncLoop::LaunchMethod)c.launch);
   uint32_t lastStartRet = 0;
   long bodiesAtStart    = 0;
@@ -261,6 +274,14 @@ static RunResult runScript(const Case &c, long idx, bool judge)
       started = false;
     } else if (op == 'G') {
       sleepUs(300);
+    } else if (op == 'g') {  // short quiet period after stop(): a late body would log now
+      double t0 = vh::now();
+      while ((vh::now() - t0) * 1e6 < 3.0) {
+      }
+    } else if (op == 'F') {  // free-run for a random sub-microsecond time
+      double t0 = vh::now(), us = fr.real(0.0, 1.5);
+      while ((vh::now() - t0) * 1e6 < us) {
+      }
     } else if (op == 'W') {
       if (!started)
         continue;
@@ -271,7 +292,8 @@ static RunResult runScript(const Case &c, long idx, bool judge)
           rr.r2Timeout = true;
           break;
         }
-        sleepUs(20);
+        if (c.mode != 3)
+          sleepUs(20);
       }
       if (!rr.r2Timeout)
         vh::count("r2_body_after_start_observed");
@@ -282,10 +304,11 @@ static RunResult runScript(const Case &c, long idx, bool judge)
   atPoint(P_DTOR_CALL, 0, script);
   delete al;
   atPoint(P_DTOR_RET, 0, script);
+  rkcommon::verif::hook().store(savedHook);
   g_dir.active = false;
   g_randomDelayPermille.store(0);
   // wait (bounded) for the loop function to return so that no stale thread logs into the next script
-  if (!g_noLog) {
+  if (!g_noLog && c.mode != 3) {
     double t0   = vh::now();
     bool exited = false;
     while (!exited && vh::now() - t0 < 2.0) {
@@ -480,6 +503,25 @@ static void buildCases(bool tsan, bool taskOk, bool threadOk)
     c.P = c.k = c.Q = 0;
     g_cases.push_back(c);
   }
+  // (d) raw stress: thousands of start/await/free-run/stop cycles on one loop with no hook
+  // installed; decides what no interleaving of hook points can show (hardware store->load
+  // reordering between the loop thread's flag store and flag load)
+  {
+    long nRaw = vh::tier(60, 1500);
+    for (long i = 0; i < nRaw; ++i) {
+      Case c;
+      int cycles = 2000;
+      c.script.reserve((size_t)cycles * 5);
+      for (int j = 0; j < cycles; ++j)
+        c.script += "SWFTg";
+      c.launch        = launches[i % launches.size()];
+      c.bodyUs        = -(int)r.pick(std::vector<int>{200, 400, 400, 1000});
+      c.mode          = 3;
+      c.delayPermille = 0;
+      c.P = c.k = c.Q = 0;
+      g_cases.push_back(c);
+    }
+  }
   // (c) stress without delays (hooks only log)
   long nStress = vh::tier(600, 40000);
   for (long i = 0; i < nStress; ++i) {
@@ -538,7 +580,9 @@ int main(int argc, char **argv)
     h          = vh::hash64(h, (uint64_t)c.launch * 1000003u + (uint64_t)c.bodyUs);
     h          = vh::hash64(h, (uint64_t)c.mode * 7919u + (uint64_t)c.P * 131u + (uint64_t)c.k * 17u + (uint64_t)c.Q);
     vh::evaluated(h, c.script.find('S') != std::string::npos);
-    vh::count(c.mode == 0 ? "scripts_directed" : c.mode == 1 ? "scripts_random_delay" : "scripts_stress");
+    vh::count(c.mode == 0 ? "scripts_directed" : c.mode == 1 ? "scripts_random_delay" : c.mode == 3 ? "scripts_raw_stress" : "scripts_stress");
+    if (c.mode == 3)
+      vh::count("raw_stress_start_stop_cycles", (long long)c.script.size() / 5);
     vh::count(c.launch == AsyncLoop::THREAD ? "scripts_thread_launch" : "scripts_task_launch");
     if (k % 997 == 0)
       vh::sample(vh::J().kv("case", describeCase(c, k)).str(), 8);
